@@ -722,7 +722,7 @@ func (w *c07World) viol(sig string, op c07Op, extra map[string]any) {
 	for k, v := range extra {
 		d[k] = v
 	}
-	if strings.Contains(sig, "concurrent-login") {
+	if strings.Contains(sig, "concurrent-login") || strings.Contains(sig, "interface-lookup") {
 		w.run.Violation(sig, d)
 		return
 	}
@@ -804,7 +804,20 @@ func (w *c07World) check(op c07Op) {
 	}
 	for _, x := range ids {
 		k := sm.GetControlConnectionByClientID(x)
+		// the interface-returning accessor must agree: "nothing" has to be a nil interface (what its
+		// callers test), anything else must hold exactly the connection the typed lookup returns
+		if ci := sm.GetControlConnectionInterface(x); ci != nil {
+			rv := reflect.ValueOf(ci)
+			if rv.Kind() == reflect.Ptr && rv.IsNil() {
+				w.viol("C07:interface-lookup-returns-typed-nil-for-absent-client", op, map[string]any{"client": x})
+			} else if cc, ok := ci.(*ControlConnection); !ok || cc != k {
+				w.viol("C07:interface-lookup-disagrees-with-typed-lookup", op, map[string]any{"client": x})
+			}
+		} else if k != nil {
+			w.viol("C07:interface-lookup-disagrees-with-typed-lookup", op, map[string]any{"client": x})
+		}
 		if k == nil {
+			w.run.Count("absent_client_lookups", 1)
 			continue
 		}
 		c := w.ownerOf(k)
@@ -1080,6 +1093,7 @@ func TestVerifC07RegistryExhaustive(t *testing.T) {
 	run.Floor("tunnel_conversions", 10)
 	run.Floor("cloud_faults_on_disconnect", 50)
 	run.Floor("reuse_registered", 10)
+	run.Floor("absent_client_lookups", 100)
 	run.Floor("swept_unauthenticated", 5)
 	run.Floor("swept_authenticated", 5)
 	run.Floor("config_push_write_failures", 20)
